@@ -38,7 +38,8 @@ ASSUMPTIONS = [
     '|dP|<=1e-6 P + 2e-2 Pa (Chemical.Tsat stops at 1e-2 Pa); scale/permutation |dT|<=1e-4 K, |dP|<=2e-6 P, '
     '|dy|<=2e-6 (two results each within the residual tolerance); normalisation 1e-12',
 ]
-REQUIRED_CELLS = {'quick': ['T.wide', 'P>Pc', 'computed-P-below-box(judged)', 'stream:IDs=default', 'stream:IDs=all',
+REQUIRED_CELLS = {'quick': ['T.wide', 'P>Pc', 'computed-P-below-box(judged)', 'stream:IDs=default', 'stream:IDs=all', 'stream:global=other',
+                            'container=list', 'container=chemicals', 'container=generator', 'container=list-mutated',
                             'groupless-member', 'prelude=none', 'prelude=pkg', 'prelude=perm', 'prelude=pkg+perm', 'op=bubP', 'op=bubT', 'op=dewP', 'op=dewT', 'pkg=ideal', 'pkg=dortmund', 'pkg=dpcf',
                             'z=zeros', 'z=trace', 'z=vertex', 'npos=1', 'npos>=2', 'order:judged',
                             'rt:T-P-T', 'rt:P-T-P'],
@@ -144,7 +145,7 @@ def nonmonotone_outside_range(c, lo_hull, hi_hull):
 
 
 class System:
-    def __init__(self, names, pkg, z, zkind):
+    def __init__(self, names, pkg, z, zkind, container='tuple', ctx=None):
         self.names = list(names)
         self.pkg = pkg
         self.th = thermo_for(self.names, pkg)
@@ -173,8 +174,23 @@ class System:
         lo_hull = min(p.Tmin for p in Psats) + 10.0
         hi_hull = max(p.Tmax for p in Psats) - 10.0
         self.xtrap = int(any(nonmonotone_outside_range(c, lo_hull, hi_hull) for c in present))
-        self.BP = eq.BubblePoint(self.chems, self.th)
-        self.DP = eq.DewPoint(self.chems, self.th)
+        # the documented argument is an iterable of chemicals; Stream passes lists, VLE tuples
+        self.container = container
+        def arg():
+            if container == 'tuple': return self.chems
+            if container == 'chemicals': return self.th.chemicals          # the compiled Chemicals object
+            if container == 'generator': return (c for c in self.chems)
+            return list(self.chems)
+        a, b = arg(), arg()
+        if ctx is None:
+            self.BP = eq.BubblePoint(a, self.th)
+            self.DP = eq.DewPoint(b, self.th)
+        else:
+            reg = f'pkg={pkg},container={container}'
+            self.BP = ctx.call('new.BubblePoint', eq.BubblePoint, a, self.th, region=reg)
+            self.DP = ctx.call('new.DewPoint', eq.DewPoint, b, self.th, region=reg)
+        if container == 'list-mutated':
+            a.reverse(); b.clear()      # the caller's own lists; the solver objects must not depend on them
 
     def gap(self):
         """1 when some pair of present chemicals has a (near) miscibility gap in the package's liquid model."""
@@ -285,9 +301,11 @@ def draw_system(ch, nmin=1, nmax=5, ctx=None):
         if 'perm' in prelude and n > 1:
             p = ch.permutation('prelude.perm', n)
             run_prelude([names[i] for i in p], pkg, [z[i] for i in p], ops)
+    container = ch.choice('container', ['tuple', 'list', 'chemicals', 'tuple', 'generator', 'list-mutated'])
     if ctx is not None:
         ctx.cell('prelude=' + prelude)
-    return System(names, pkg, z, zkind)
+        ctx.cell('container=' + container)
+    return System(names, pkg, z, zkind, container, ctx)
 
 
 def draw_T(ch, s, ctx):
@@ -799,9 +817,14 @@ def prop_stream(ch, ctx):
     cells(ctx, s, op)
     ctx.cell('stream:IDs=' + ids)
     region = s.region(is_dew(op)) + f',ids={ids}'
+    glob = ch.choice('stream.global', ['same', 'other', 'other'])
+    ctx.cell('stream:global=' + glob)
     tmo.settings.set_thermo(s.th)
     flows = {s.names[i]: float(s.z[i] * k) for i in range(s.n) if s.z[i] > 0}
     stream = ctx.call('stream.new', tmo.Stream, None, thermo=s.th, T=own_T, P=own_P, phase='l', region=region, **flows)
+    if glob == 'other':
+        # the stream keeps its own package; the session default is another one when the helpers are called
+        tmo.settings.set_thermo(thermo_for(s.names, ch.choice('stream.global.pkg', [k_ for k_ in PKGS if k_ != s.pkg])))
     if ids == 'default':
         IDs = None
         sel = [i for i in range(s.n) if s.z[i] > 0]            # vle_chemicals: present chemicals in package order
